@@ -340,8 +340,10 @@ def cropOp (P : Crop.Perms) (kind : Value.Val) (k : Nat) (s : Crop.St (List Sym)
   | "sow" =>
     let sw := sweepOf (getObj op "sweep")
     let isCases := getBool op "cases"
-    -- sow_combos: "shuffle" absent = the default False; "shuffle_none" = None was given (the crop keeps its own)
-    let shArg := if isCases || getBool op "shuffle_none" then none else some (getNat op "shuffle")
+    -- sow_combos: "shuffle_omit" = the argument was left out; "shuffle_none" = None was given (the crop keeps its own)
+    let shArg := if isCases || getBool op "shuffle_none" then none
+      else if getBool op "shuffle_omit" then Gen.sowCombosShuffleDefault.map Int.toNat   -- the parameter's default, read off the source
+      else some (getNat op "shuffle")
     match Crop.opSow P s sw (!isCases) shArg (optNat op "bs") (optNat op "nb") with
     | .ok s' => (s', Json.null)
     | .error e => ({ s with obj := Crop.sowAttrs s.obj (!isCases) shArg (optNat op "bs") (optNat op "nb") }, err (cropErr e))
@@ -397,7 +399,11 @@ def cropOp (P : Crop.Perms) (kind : Value.Val) (k : Nat) (s : Crop.St (List Sym)
     let fk : Crop.FarmerKind := match getStr op "kind" with
       | "runner" => .runner | "harvester" => .harvester | "sampler" => .sampler | _ => .raw
     let env : Crop.Env := { labelFails := getBool op "label_fails", deliverFails := getBool op "deliver_fails" }
-    let out := Crop.reapFarmer P nlL fk env s o
+    -- batches that other workers finish while the farmer is syncing its store
+    let lateIds := natList op "late_ids"
+    let late : Option (Crop.Dir (List Sym)) → Option (Crop.Dir (List Sym)) :=
+      fun od => od.map (fun d => (Crop.growMany f (fun _ => false) d lateIds).1)
+    let out := Crop.reapFarmer P nlL fk env s o late
     let s' := match out.res with
       | .error (.gather _) => if o.allowIncomplete || o.wait then s else (Crop.isReady s).1
       | _ => out.st
